@@ -8,11 +8,14 @@
 //! case: {"reqs":[R..], "batches":[n..], "via":"manager"|"direct", "between":"settle"|"none"}
 //!       {"k":"samples"}   -> representative requests (templates for the generator)
 //!       {"k":"stats"}     -> open fds / threads of the harness process (leak check)
+//!       {"k":"route","tree":T,"key":[bytes],"value":[bytes]} -> RaftDataHandler::load_snapshot of one record on a
+//!                            fresh mini node: {"result":"ok"|"err:..","changed":[component..],"detail":{..}}
+//!       {"k":"route_samples"} -> one valid [tree,key,value] per tree name
 //! `between` (default "settle"): after every follower batch wait for quiescence (awaited round trips
 //! through every actor), i.e. requests of ONE batch race with each other, batches do not.  "none": only the
 //! await on the ApplyBatchRequest answer ("manager") / nothing at all ("direct") separates batches.
-use super::smutil::{self, MiniNode, Occur};
-use super::Suite;
+use super::smutil::{self, MiniNode, Occur, Part, PARTS};
+use super::{bytes_of, json_bytes, Suite};
 use rnacos::raft::filestore::model::ApplyRequestDto;
 use rnacos::raft::filestore::raftapply::{StateApplyAsyncRequest, StateApplyRequest};
 use rnacos::raft::store::ClientRequest;
@@ -211,6 +214,185 @@ impl Dispatch {
     }
 }
 
+/// everything observable of one node, per component (used by `route`): the component's own BuildSnapshot
+/// output plus the state that is not in its snapshot (weak namespaces, expired cache entries via the
+/// VerifRawEntries hook, the legacy CacheManager which has no snapshot at all)
+async fn component_view(node: &MiniNode, occur: &Occur) -> anyhow::Result<Vec<(String, Value)>> {
+    use rnacos::cache::core::VerifRawEntries;
+    use rnacos::cache::model::{CacheKey, CacheType};
+    use rnacos::namespace::model::{NamespaceQueryReq, NamespaceQueryResult};
+    use rnacos::raft::cache::CacheManagerReq;
+    let mut out = vec![];
+    for (part, name) in PARTS.iter() {
+        let (recs, _) = smutil::snapshot_part(node, occur, *part).await?;
+        let mut v = json!({ "snapshot": recs });
+        match part {
+            Part::Namespace => {
+                if let NamespaceQueryResult::List(l) =
+                    node.namespace.send(NamespaceQueryReq::List).await??
+                {
+                    let mut ids: Vec<Value> = l
+                        .iter()
+                        .map(|n| json!([n.namespace_id.as_ref(), n.namespace_name, n.flag]))
+                        .collect();
+                    ids.sort_by_key(|x| x.to_string());
+                    v["list"] = Value::Array(ids);
+                }
+            }
+            Part::Cache => {
+                let raw = node.direct_cache.send(VerifRawEntries).await?;
+                v["raw_entries"] = Value::Array(
+                    raw.iter()
+                        .map(|(k, e, d)| json!([smutil::hex(k.as_bytes()), e, smutil::hex(d)]))
+                        .collect(),
+                );
+            }
+            _ => {}
+        }
+        out.push((name.to_string(), v));
+    }
+    let mut legacy = vec![];
+    for (t, k) in &occur.cache_keys {
+        if let Ok(ct) = CacheType::from_data(*t) {
+            let key = CacheKey::new(ct, std::sync::Arc::new(k.clone()));
+            legacy.push(json!([
+                t,
+                k,
+                smutil::to_canon(&node.cache.send(CacheManagerReq::Get(key)).await??)
+            ]));
+        }
+    }
+    out.push(("legacy_cache".to_string(), Value::Array(legacy)));
+    Ok(out)
+}
+
+impl Dispatch {
+    /// {"k":"route","tree":..,"key":[bytes],"value":[bytes]}: the REAL `RaftDataHandler::load_snapshot` of one
+    /// record on a fresh mini node; which component's observable state changed?
+    fn run_route(&self, case: &Value) -> anyhow::Result<Value> {
+        use rnacos::raft::filestore::model::SnapshotRecordDto;
+        let tree = case["tree"].as_str().unwrap_or("").to_string();
+        let key = bytes_of(&case["key"]);
+        let value = bytes_of(&case["value"]);
+        let mut occur = Occur::default();
+        // cache keys named by the record (T_CACHE / T_DIRECT_CACHE use "<type>\0<key>")
+        if let Ok(k) = rnacos::cache::model::CacheKey::from_db_key_ref(&key) {
+            occur
+                .cache_keys
+                .insert((k.cache_type.get_type_data(), k.key.as_ref().clone()));
+        }
+        let tmp_base = self.tmp_base.clone();
+        let sys = actix_rt::System::new();
+        let out = sys.block_on(async move {
+            let node = MiniNode::build(&tmp_base).await?;
+            let before = component_view(&node, &occur).await?;
+            let rec = SnapshotRecordDto {
+                tree: std::sync::Arc::new(tree),
+                key,
+                value,
+                op_type: 0,
+            };
+            let result = match node.handler.load_snapshot(rec).await {
+                Ok(_) => "ok".to_string(),
+                Err(e) => format!("err:{}", e),
+            };
+            node.settle().await?;
+            node.settle().await?;
+            let after = component_view(&node, &occur).await?;
+            let mut changed = vec![];
+            let mut detail = serde_json::Map::new();
+            for ((n, a), (_, b)) in before.iter().zip(after.iter()) {
+                if a != b {
+                    changed.push(json!(n));
+                    detail.insert(n.clone(), json!({"before": a, "after": b}));
+                }
+            }
+            anyhow::Ok((
+                json!({"r": "ok", "result": result, "changed": changed, "detail": detail}),
+                node.dir,
+            ))
+        });
+        drop(sys);
+        let (v, dir) = out?;
+        drop(dir);
+        Ok(v)
+    }
+
+    /// {"k":"route_samples"}: one valid [tree,key,value] per tree name, taken from the real snapshot of a mini
+    /// node that applied the (non-destructive) sample requests, plus a few hand-built ones
+    fn run_route_samples(&self) -> anyhow::Result<Value> {
+        let tmp_base = self.tmp_base.clone();
+        let sys = actix_rt::System::new();
+        let out = sys.block_on(async move {
+            let node = MiniNode::build(&tmp_base).await?;
+            let samples = smutil::samples();
+            for (name, v) in samples.as_object().unwrap() {
+                let op = name.split('/').nth(1).unwrap_or("");
+                let destructive = ["Remove", "Drop", "Delete", "ConfigRemove"]
+                    .iter()
+                    .any(|d| op.starts_with(d) || name.starts_with(d));
+                if destructive {
+                    continue;
+                }
+                let req = smutil::parse_req(v)?;
+                let _ = node
+                    .handler
+                    .apply_log_to_state_machine(req, &node.index)
+                    .await;
+            }
+            node.settle().await?;
+            node.settle().await?;
+            let recs = smutil::snapshot_part_raw(&node, Part::All).await?;
+            let mut m = serde_json::Map::new();
+            for (tree, k, v) in recs {
+                let name = if tree == "T_SEQUENCE" && k != b"SEQ_CONFIG" {
+                    "T_SEQUENCE@other".to_string()
+                } else {
+                    tree.clone()
+                };
+                m.entry(name)
+                    .or_insert_with(|| json!([tree, json_bytes(&k), json_bytes(&v)]));
+            }
+            // hand-built: T_USER (TableManager takes any bytes), and a T_DIRECT_CACHE record with a far-future
+            // timeout (real snapshots always carry timeout 0, see CacheValue::to_do)
+            m.insert(
+                "T_USER".into(),
+                json!([
+                    "T_USER",
+                    json_bytes(b"someone"),
+                    json_bytes(b"arbitrary-user-bytes")
+                ]),
+            );
+            {
+                use quick_protobuf::Writer;
+                use rnacos::common::pb::data_object::DirectCacheItemDo;
+                let d = DirectCacheItemDo {
+                    cache_type: 1,
+                    key: "dk1".into(),
+                    data: std::borrow::Cow::Borrowed(b"dv1"),
+                    timeout: 2000000000,
+                };
+                let mut buf = Vec::new();
+                Writer::new(&mut buf).write_message(&d)?;
+                // SnapshotReader hands `write_message` output (with its length prefix) to BytesReader::read_message
+                m.insert(
+                    "T_DIRECT_CACHE@timeout".into(),
+                    json!(["T_DIRECT_CACHE", json_bytes(b"1\0dk1"), json_bytes(&buf)]),
+                );
+            }
+            m.insert(
+                "T_UNKNOWN".into(),
+                json!(["T_UNKNOWN", json_bytes(b"k"), json_bytes(b"v")]),
+            );
+            anyhow::Ok((json!({"r": "ok", "samples": m}), node.dir))
+        });
+        drop(sys);
+        let (v, dir) = out?;
+        drop(dir);
+        Ok(v)
+    }
+}
+
 fn proc_stats() -> Value {
     let fds = std::fs::read_dir("/proc/self/fd")
         .map(|d| d.count())
@@ -238,7 +420,12 @@ impl Suite for Dispatch {
             Some("stats") => return proc_stats(),
             _ => {}
         }
-        match catch_unwind(AssertUnwindSafe(|| self.run_case(case))) {
+        let kind = case["k"].as_str().unwrap_or("").to_string();
+        match catch_unwind(AssertUnwindSafe(|| match kind.as_str() {
+            "route" => self.run_route(case),
+            "route_samples" => self.run_route_samples(),
+            _ => self.run_case(case),
+        })) {
             Ok(Ok(v)) => v,
             Ok(Err(e)) => json!({"r": "error", "msg": e.to_string()}),
             Err(p) => {
